@@ -29,14 +29,14 @@ Proof.
   - apply String.eqb_eq in H. auto.
 Qed.
 
-Lemma canon_trailing_len : forall n X c, length X <= n -> is_closer c = true ->
+Lemma canon_trailing_len : forall n X c, List.length X <= n -> is_closer c = true ->
   (X = [] \/ last X "" <> ",") ->
   canon (X ++ [","; c]) = canon (X ++ [c]).
 Proof.
   induction n as [|n IH]; intros X c Hn Hc Hl.
-  - destruct X; [|cbn in Hn; lia]. cbn [app]. rewrite canon_cons. rewrite Hc. reflexivity.
+  - destruct X as [|t0 X0]; [|exfalso; cbn [List.length] in Hn; inversion Hn]. cbn [app]. rewrite canon_cons. rewrite Hc. reflexivity.
   - destruct X as [|t X']; [cbn [app]; rewrite canon_cons, Hc; reflexivity|].
-    cbn [length] in Hn. assert (Hn' : length X' <= n) by lia.
+    cbn [List.length] in Hn. assert (Hn' : List.length X' <= n) by (apply le_S_n; exact Hn).
     assert (Hc3 := closer_cases c Hc).
     destruct X' as [|x [|p [|a X'']]].
     + (* [t] *)
@@ -45,13 +45,13 @@ Proof.
       rewrite (canon_cons "," [c]), Hc. reflexivity.
     + (* [t; x] *)
       assert (Hx : canon ([x] ++ [","; c]) = canon ([x] ++ [c])).
-      { apply IH; [cbn; lia|exact Hc|]. right. destruct Hl as [Hl|Hl]; [discriminate|exact Hl]. }
+      { apply IH; [exact Hn'|exact Hc|]. right. destruct Hl as [Hl|Hl]; [discriminate|exact Hl]. }
       cbn [app] in Hx |- *. rewrite (canon_cons t [x; ","; c]), (canon_cons t [x; c]).
       destruct ((t =? ",") && is_closer x); [exact Hx|].
       destruct (t =? "("), (is_name x); cbn [andb]; rewrite Hx; reflexivity.
     + (* [t; x; p] *)
       assert (Hx : canon ([x; p] ++ [","; c]) = canon ([x; p] ++ [c])).
-      { apply IH; [cbn; lia|exact Hc|]. right. destruct Hl as [Hl|Hl]; [discriminate|exact Hl]. }
+      { apply IH; [exact Hn'|exact Hc|]. right. destruct Hl as [Hl|Hl]; [discriminate|exact Hl]. }
       cbn [app] in Hx |- *. rewrite (canon_cons t [x; p; ","; c]), (canon_cons t [x; p; c]).
       destruct ((t =? ",") && is_closer x); [exact Hx|].
       assert (Ec : (c =? "=>") = false) by (destruct Hc3 as [E|[E|E]]; subst c; reflexivity).
@@ -60,7 +60,7 @@ Proof.
       assert (Hx : canon ((x :: p :: a :: X'') ++ [","; c]) = canon ((x :: p :: a :: X'') ++ [c])).
       { apply IH; [exact Hn'|exact Hc|]. right. destruct Hl as [Hl|Hl]; [discriminate|exact Hl]. }
       assert (Hy : canon (X'' ++ [","; c]) = canon (X'' ++ [c])).
-      { apply IH; [cbn [length] in Hn'; lia|exact Hc|].
+      { apply IH; [cbn [List.length] in Hn'; lia|exact Hc|].
         destruct X'' as [|y Y]; [left; reflexivity|right].
         destruct Hl as [Hl|Hl]; [discriminate|exact Hl]. }
       cbn [app] in Hx |- *.
@@ -71,7 +71,7 @@ Qed.
 
 Theorem canon_trailing : forall X c, is_closer c = true -> (X = [] \/ last X "" <> ",") ->
   canon (X ++ [","; c]) = canon (X ++ [c]).
-Proof. intros X c. exact (canon_trailing_len (length X) X c (le_n _)). Qed.
+Proof. intros X c. exact (canon_trailing_len (List.length X) X c (le_n _)). Qed.
 
 (* the condition on X is needed *)
 Example canon_trailing_needs_condition :
